@@ -132,6 +132,18 @@ fn main() { ok::<C<u8>>(); ok::<C<u16, 0>>(); }''',
 #[derive(TypeInfo)]
 enum V<T> { A(T), #[codec(skip)] B(NoInfoG<T>), C { #[codec(skip)] x: NoInfo, y: Vec<T> } }
 fn main() { ok::<V<u8>>(); }''',
+ "unsized_parameter_inline_bound": '''
+#[derive(TypeInfo)]
+struct Bx<T: ?Sized> { inner: Box<T>, n: u8 }      // a relaxed bound written inline
+#[derive(TypeInfo)]
+enum Rf<'a, T: ?Sized + Cfg> { A(&'a T), B(Box<T>, T::A) }
+fn okq<T: TypeInfo + 'static + ?Sized>() { let _ = T::type_info(); }
+impl Cfg for str { type A = u8; }
+fn main() { okq::<Bx<str>>(); okq::<Bx<[u8]>>(); okq::<Bx<u8>>(); okq::<Rf<'static, str>>(); }''',
+ "unsized_parameter_where_clause": '''
+#[derive(TypeInfo)]
+struct Bw<T> where T: ?Sized { inner: Box<T> }
+fn main() { let _ = Bw::<str>::type_info(); let _ = Bw::<u16>::type_info(); }''',
  "where_clause_on_assoc": '''
 #[derive(TypeInfo)]
 struct W<T: Cfg> where T::A: Clone { a: T::A, b: Option<T> }
